@@ -56,15 +56,14 @@ Section Rename.
     destruct (search_post_parent _ _ HPn) as (np & Hnp1 & Hnp2). rewrite Hnp1.
     destruct (negb (perm_on (f_heap s) op OpenWrite (v_user v))); [stay|].
     destruct (negb (Nat.eqb np op) && negb (perm_on (f_heap s) np OpenWrite (v_user v))); [stay|].
-    destruct (str_eqb (pi_path (sr_pi ro)) (pi_path (sr_pi rn))); [stay|].
     assert (Hoc_lt : oc < length (f_heap s)) by (eapply search_child_valid; eauto).
     rewrite Vos. change (sepc Linux) with SLASH.
     destruct (get (f_heap s) oc) as [[ch m|dt k id m|lk m]|] eqn:Ego.
     4:{ exfalso. apply get_some in Hoc_lt as (x & Hx). congruence. }
     1:{ (* a directory is moved *)
+      destruct (is_not_exist (sr_err rn)) eqn:Ene; cbn [negb]; [|stay].
       destruct (Nat.eqb_spec oc op) as [->|Hne]; cbn [orb]; [stay|].
       destruct (is_prefix (pi_path (sr_pi ro) ++ [SLASH]) (pi_path (sr_pi rn))) eqn:Epre; [stay|].
-      destruct (is_not_exist (sr_err rn)) eqn:Ene; cbn [negb]; [|stay].
       destruct Holk as [->|Holk]; [congruence|].
       destruct (search_post_not_exist _ _ HPn Ene) as (np' & Hn1 & _ & Hnc & Hnlk).
       assert (np' = np) by congruence. subst np'.
@@ -80,6 +79,8 @@ Section Rename.
     all: destruct Holk as [->|Holk]; [congruence|].
     all: assert (Hnr : ~ reach (f_heap s) oc np)
            by (intros Hr; apply (reach_leaf _ _ _ Hleaf) in Hr; subst; unfold is_dir in Hnp2; congruence).
+    all: destruct (str_eqb (pi_path (sr_pi ro)) (pi_path (sr_pi rn))
+                  || match sr_child rn with Some nc => Nat.eqb nc oc | None => false end); [stay|].
     all: destruct (sr_child rn) as [nc|] eqn:Enc.
     all: try (
       (* no entry under the new name *)
